@@ -64,40 +64,53 @@ Theorem C10_image_split_join : forall s n t d,
 Proof. exact split_image_join. Qed.
 Print Assumptions C10_image_split_join.
 
-(* For an entry name without regexp metacharacters, IsImageMatched holds exactly for the references
-   name[:tag][@sha256:digest] of that name — never for a longer or shorter name.
-   Hypothesis (checked by the correspondence for every literal name generated): Go's parser reads
-   the pattern the code builds for a literal name as an AST that matches like [img_re]. *)
+(* For EVERY entry name t, IsImageMatched holds exactly for the references t[:tag][@sha256:digest]
+   of that name — never for a longer or shorter name, whatever bytes t contains (the code quotes the
+   name with regexp.QuoteMeta since /repo d3b6ede; before that the statement needed literal_text t and
+   was refuted for x.y / xzy:1).
+   Hypothesis (checked by the correspondence for every entry name generated, case kind KImgAst):
+   Go's parser reads the pattern the code builds, "^" ++ QuoteMeta(t) ++ suffix, as an AST that
+   matches like [img_re t]. *)
 Theorem C10_image_exact :
   forall parse : string -> option re,
-    (forall t, literal_text t = true ->
-       exists r, parse ("^" ++ t ++ img_suffix) = Some r /\ forall s, matches r s = matches (img_re t) s) ->
-    forall s t, literal_text t = true -> (is_matched parse s t = Ok true <-> image_ref_of t s).
+    (forall t, exists r, parse ("^" ++ quote_meta t ++ img_suffix) = Some r /\
+                         forall s, matches r s = matches (img_re t) s) ->
+    forall s t, is_matched parse s t = Ok true <-> image_ref_of t s.
 Proof. exact image_exact. Qed.
 Print Assumptions C10_image_exact.
 
-(* The check the correspondence performs on the AST Go's parser produced for a literal entry name
+(* ... and the match always answers (no panic, no error) *)
+Theorem C10_image_match_total :
+  forall parse : string -> option re,
+    (forall t, exists r, parse ("^" ++ quote_meta t ++ img_suffix) = Some r /\
+                         forall s, matches r s = matches (img_re t) s) ->
+    forall s t, exists b, is_matched parse s t = Ok b.
+Proof. exact image_match_total. Qed.
+Print Assumptions C10_image_match_total.
+
+(* a pattern that does not compile (impossible after QuoteMeta, but handled by the code) means "no match" *)
+Theorem C10_image_compile_error_is_false :
+  forall (parse : string -> option re) s t p,
+    img_pattern t = Some p -> parse p = None -> is_matched parse s t = Ok false.
+Proof. exact image_compile_error_is_false. Qed.
+Print Assumptions C10_image_compile_error_is_false.
+
+(* regression witnesses of the repaired defects: x.y / xzy:1, a+b, a( *)
+Theorem C10_image_regressions :
+  is_matched quoted_tab "xzy:1" "x.y" = Ok false /\
+  is_matched quoted_tab "x.y:1" "x.y" = Ok true /\
+  is_matched quoted_tab "a+b:1" "a+b" = Ok true /\
+  is_matched quoted_tab "a(:1" "a(" = Ok true /\
+  is_matched quoted_tab "a:1" "a(" = Ok false.
+Proof. exact image_regressions. Qed.
+Print Assumptions C10_image_regressions.
+
+(* The check the correspondence performs on the AST Go's parser produced for an entry name
    (case kind KImgAst: equal normal forms) implies the hypothesis of C10_image_exact for that name. *)
 Theorem C10_image_ast_check_sound : forall (r : re) (t : string),
   re_eqb (norm r) (norm (img_re t)) = true -> forall s, matches r s = matches (img_re t) s.
 Proof. exact ast_check_sound. Qed.
 Print Assumptions C10_image_ast_check_sound.
-
-(* The unrestricted statement is FALSE for the code as it is: the entry x.y matches the image xzy:1
-   (finding C10/image-name-unquoted-regex; r is the AST Go's parser yields for the pattern). *)
-Theorem C10_image_exact_refuted :
-  exists s t p r, img_pattern t = Some p /\
-    forall parse : string -> option re, parse p = Some r ->
-      is_matched parse s t = Ok true /\ ~ image_ref_of t s.
-Proof. exact image_exact_refuted_lemma. Qed.
-Print Assumptions C10_image_exact_refuted.
-
-(* an entry name that is not a regular expression: nil *Regexp, panic (finding C10/image-name-regex-compile-panic) *)
-Theorem C10_image_bad_name_panics :
-  forall (parse : string -> option re) s t p,
-    img_pattern t = Some p -> parse p = None -> is_matched parse s t = Panic.
-Proof. exact image_bad_name_panics. Qed.
-Print Assumptions C10_image_bad_name_panics.
 
 (* name / tag / digest composition of a matched image *)
 Theorem C10_image_compose : forall im v n t d,
@@ -335,9 +348,9 @@ Print Assumptions C10_delim_prepend_append.
 (* ------------------------------------------------------------------ obligations over generated tables *)
 
 Theorem Gen_C10_image_pattern :
-  gen_image_match_pattern = [PLit "^"; PVar "t"; PLit "(:[a-zA-Z0-9_.{}-]*)?(@sha256:[a-zA-Z0-9_.{}-]*)?$"] /\
-  gen_image_compile_error_ignored = true.
-Proof. exact (conj gen_image_pattern_shape gen_image_compile_error_is_ignored). Qed.
+  gen_image_match_pattern = [PLit "^"; PQuote "t"; PLit "(:[a-zA-Z0-9_.{}-]*)?(@sha256:[a-zA-Z0-9_.{}-]*)?$"] /\
+  gen_image_compile_error_ignored = false /\ gen_image_compile_error_returns_false = true.
+Proof. exact (conj gen_image_pattern_shape gen_image_compile_error_handled). Qed.
 Print Assumptions Gen_C10_image_pattern.
 
 Theorem Gen_C10_anchor_pattern :
